@@ -71,7 +71,7 @@ def mkblobdata(n):
     return b'cZODB.blob\nBlob\n.' + pickle.dumps(n, 3)
 
 
-def gen_program(rng, kind, ntx=None, small=False):
+def gen_program(rng, kind, ntx=None, small=False, multi_undo=None):
     """a storage-level history as a json-able program"""
     ntx = ntx or rng.choice([2, 3, 4, 5, 6, 8])
     oids = [1, 2, 0x10000, 2 ** 63] if not small else [1, 2, 3]
@@ -143,7 +143,34 @@ def gen_program(rng, kind, ntx=None, small=False):
             # pack somewhere in the past (between two tids): packed prefix, status 'p'
             steps.append(dict(pack=tid - GAP * rng.choice([1, 2, 3]) + GAP // 2))
             undoable = []
+    if canundo and rng.random() < (0.35 if multi_undo is None else multi_undo):
+        tid = multi_undo_scenario(rng, steps, tid, rng.choice([2, 2, 3]))
     return dict(kind=kind, steps=steps, split=split)
+
+
+def multi_undo_scenario(rng, steps, tid, k):
+    """append: k+1 revisions of a fresh oid; ONE transaction undoing the last k of them, newest first
+    (= db.undoMultiple: k back-pointer records for the same oid in one transaction, the LAST one is
+    the effective one); another revision; its undo — whose back pointer targets the last record of
+    the multi-undo transaction (restore / _data_find must find that one, not the first)."""
+    oid = 7
+
+    def add(ops, d=b'multi.undo'):
+        nonlocal tid
+        steps.append(dict(t=tid, u='', d=d.hex(), e=None, ops=ops))
+        tid += GAP
+        return len(steps) - 1
+    n = 1000 + len(steps)
+    revs = []
+    for j in range(k + 1):
+        ops = [['s', oid, mkdata(oid, n + j, rng).hex()]]
+        if j == 1 and rng.random() < 0.5:
+            ops.append(['s', 8, mkdata(8, n + j, rng).hex()])
+        revs.append(add(ops))
+    add([['u', r] for r in reversed(revs[1:])])
+    last = add([['s', oid, mkdata(oid, n + k + 1, rng).hex()]])
+    add([['u', last]])
+    return tid
 
 
 def txn_steps(prog):
@@ -1088,6 +1115,8 @@ def run_copy_part(ck, cases):
     for case, res, span in zip(cases, results, spans):
         kind = '%s->%s%s' % (case['prog']['kind'], case['dst'], ' range' if case.get('range') else '')
         ck.count('copy:' + kind)
+        if any(sum(1 for op in st.get('ops', []) if op[0] == 'u') >= 2 for st in case['prog']['steps']):
+            ck.count('copy:source-with-multi-undo-transaction')
         nt = nontrivial_copy(res)
         ck.case(case, nt, sample=dict(part='copy', kind=kind, src=[t[0] for t in res.get('src_dump', [])][:4],
                                       undo_records=sum(1 for t in res.get('src_dump', []) for r in t[6] if r[3]))
@@ -1299,6 +1328,9 @@ def main(argv=None):
             dmgs = gen_damages(ck.rng, raw, txns, 64 if not big else 24, 64 if not big else 16)
         files.append(dict(prog=prog, raw=raw, undos=undos, dmgs=dmgs))
         ck.count('recover:file' + (':big' if big else '') + (':undo' if undos else ''))
+        if any(len({r['oid'] for r in t['recs']}) < len(t['recs']) and
+               sum(1 for r in t['recs'] if r['plen'] == 0) >= 2 for t in txns):
+            ck.count('recover:file:two-back-pointer-records-of-one-oid')
         byp = {r['pos']: r for t in txns for r in t['recs']}
         if any(r['back'] and byp[r['back']]['plen'] == 0 for r in byp.values()):
             ck.count('recover:file:multi-hop-chain')
